@@ -83,6 +83,12 @@ def run_c13(tier):
             for f in obs.get("files", []):
                 if "proj_err" in f:
                     problems.append(f"{f['rel']} is not syntactically valid Rust: {f['proj_err']}")
+            # the crate declares one module per input module, mirroring the input tree: a module without a file is E0583
+            have = {f["rel"] for f in obs.get("files", [])}
+            for m in case["input"]["mods"]:
+                if m["path"] and "/".join(m["path"]) + ".rs" not in have:
+                    problems.append(f"no output file for module {'::'.join(m['path'])}: `mod {m['path'][-1]};` in the crate that mirrors "
+                                    f"the input tree has nothing to load (E0583)")
             for tgt in pl.targets_for(case["input"]["ptr"]):
                 msg = pl.cfail[tgt].get(case["id"])
                 if msg:
